@@ -132,9 +132,11 @@ def make_chain(ctx, nx=1, ny=1, start1=0, periodic=False, with_second=True, fine
     return r1, r2, integ
 
 
-def run_zshift(periodic, single=False, start1=0, fine_offset=0):
+def run_zshift(periodic, single=False, start1=0, fine_offset=0, repeat=1):
     """Real calcZShift on a two-region chain (nx=1, ny=1); single=True: ONE region that is its
-    own upper and lower neighbour (the periodic core of a single null)."""
+    own upper and lower neighbour (the periodic core of a single null).  repeat=2: called a
+    second time on the same regions (Mesh.geometry() runs again on every "write grid" of the
+    GUI and after redistributePoints): the post-condition is the same -- nothing accumulates."""
 
     def run(ctx):
         from hypnotoad.core import mesh as M
@@ -151,7 +153,8 @@ def run_zshift(periodic, single=False, start1=0, fine_offset=0):
                     ctx.assume(c.fine.positions[k, 0] > 0)
         with patched((M, "cumulative_trapezoid", trapz_stub), (M, "interp1d", Interp1dStub), (M, "print", lambda *a, **k: None)):
             # Bp^2 > 0 is needed by sqrt/division: assumed through the safety mechanism below
-            M.MeshRegion.calcZShift(r1)
+            for _ in range(repeat):
+                M.MeshRegion.calcZShift(r1)
 
         def integrand(c, k):
             R, Z = c.fine.positions[k, 0], c.fine.positions[k, 1]
@@ -201,7 +204,7 @@ def run_zshift(periodic, single=False, start1=0, fine_offset=0):
     return run
 
 
-def run_poloidal_distance(periodic, start1, single=False):
+def run_poloidal_distance(periodic, start1, single=False, repeat=1):
     def run(ctx):
         from hypnotoad.core import mesh as M
         from vc.shim import patched
@@ -211,7 +214,8 @@ def run_poloidal_distance(periodic, start1, single=False):
         if single:
             r1.connections["lower"] = 1
         with patched((M, "print", lambda *a, **k: None)):
-            M.MeshRegion.calcPoloidalDistance(r1)
+            for _ in range(repeat):
+                M.MeshRegion.calcPoloidalDistance(r1)
         with spec_mode():
             locmap = {"corners": (0, 0), "xlow": (0, 1), "ylow": (1, 0), "centre": (1, 1)}
             for reg, base in ((r1, None),) if single else ((r1, None), (r2, r1)):
